@@ -147,6 +147,15 @@ func cliLoop(dir, script, history string, post []string) *cliResult {
 			if len(exportObjects(q3.Stdout)) == 0 {
 				r.indentObs = "objs - exec=ok"
 			}
+			// cmdlog.sqlInspect hands the argument to the planner: the CLI's text = the in-process export with PlanOptions.Indent
+			if dbi := fileDB(filepath.Join(dir, "db0")); true {
+				if si, drvi, ierr := inspectDB(dbi); ierr == nil {
+					if want, _, e := sqlExport(drvi, si, "  "); e == nil && want != q3.Stdout {
+						add("sql-indent-cli-differs", "`{{ sql . \"  \" }}` is not the planner's text with Indent = two spaces: "+firstDiff(strings.Split(want, "\n"), strings.Split(q3.Stdout, "\n")))
+					}
+				}
+				dbi.Close()
+			}
 			db4 := fileDB(filepath.Join(dir, "db4"))
 			e4 := execScript(db4, q3.Stdout)
 			db4.Close()
